@@ -14,7 +14,7 @@ from concurrent.futures import ProcessPoolExecutor, as_completed
 
 from . import VERIF_ROOT, TEMPEST_SRC
 
-CASE_TIMEOUT = int(os.environ.get("TSIM_CASE_TIMEOUT", "600"))
+CASE_TIMEOUT = int(os.environ.get("TSIM_CASE_TIMEOUT", "1200"))
 WORKERS = int(os.environ.get("TSIM_WORKERS", str(min(16, os.cpu_count() or 4))))
 
 
